@@ -59,6 +59,11 @@ theorem unpackFloat_packFloat_representable (f : Fmt) (hf : stdFmt f) (b : Bits)
     (h : unpackFloat f b = some p) : unpackFloat f (packFloat f p) = some p := by
   rw [packFloat_unpackFloat' f (stdFmt_ok f hf) b hb p h]; exact h
 
+/-- bfloat16 is the top half of binary32 ("decode by zero-padding"): a 16-bit pattern followed by 16 zero bits is a
+    binary32 pattern denoting the same value; `bfloat2bitstore` keeps exactly those top 16 bits (truncation). -/
+theorem decode_bf16_top (p : Nat) (hp : p < 2 ^ 16) : decode f32 (p * 2 ^ 16) = decode bf16 p := by
+  exact decode_bf16_top' p hp
+
 /-! ### non-vacuity -/
 example : f16.ok ∧ f32.ok ∧ f64.ok ∧ bf16.ok := by
   unfold Fmt.ok; decide
